@@ -20,6 +20,7 @@ type EVKCase struct {
 	Kind    string  `json:"kind"` // "evk" | "gal"
 	Key     KeySpec `json:"key"`
 	GalEl   uint64  `json:"galEl,omitempty"`
+	GalLift uint64  `json:"galLift,omitempty"` // the protocol and the evaluator are given galEl + galLift*NthRoot (an unreduced Galois element)
 	Sched   Sched   `json:"sched"`
 	CtLevel int     `json:"ctLevel"`
 }
@@ -74,6 +75,12 @@ func genEVK(t *rapid.T) EVKCase {
 	if rapid.Bool().Draw(t, "gal") {
 		c.Kind = "gal"
 		c.GalEl = genGalEl(t, c.Params)
+		switch rapid.IntRange(0, 9).Draw(t, "galLiftKind") {
+		case 0:
+			c.GalLift = 1
+		case 1:
+			c.GalLift = rapid.Uint64Range(2, 1<<40).Draw(t, "galLift")
+		}
 	} else {
 		c.Kind = "evk"
 	}
@@ -211,6 +218,9 @@ func runEVK(c EVKCase, rec *h.Rec) error {
 		if err := validGalEl(c.Params, c.GalEl); err != nil {
 			return err
 		}
+		if c.GalLift > 1<<40 {
+			return fmt.Errorf("galLift out of range")
+		}
 	} else if c.Kind != "evk" {
 		return fmt.Errorf("unknown kind")
 	}
@@ -296,8 +306,8 @@ func runEVK(c EVKCase, rec *h.Rec) error {
 			return err
 		}
 	} else {
-		g := c.GalEl
-		gInv := new(big.Int).ModInverse(h.BU(g), h.BU(c.Params.NthRoot())).Uint64()
+		g := c.GalEl + c.GalLift*c.Params.NthRoot() // what lattigo is given
+		gInv := new(big.Int).ModInverse(h.BU(c.GalEl), h.BU(c.Params.NthRoot())).Uint64()
 		skIn, skOut = w.skIdeal, bigToSk(params, ringAut(sI, gInv, c.Params.CI))
 		protos := make([]multiparty.GaloisKeyGenProtocol, n)
 		crps := make([]multiparty.GaloisKeyGenCRP, n)
@@ -398,8 +408,6 @@ func runEVK(c EVKCase, rec *h.Rec) error {
 	switch {
 	case c.Key.LevelP == -1 && c.Key.W == 0 && c.CtLevel > 0:
 		functional = "skipped:noP-w0"
-	case coverageShort(c.Params, c.Key, digits, c.CtLevel):
-		functional = "skipped:digit-coverage-short"
 	case !discriminating(bound, Q):
 		functional = "not-discriminating"
 	}
@@ -418,7 +426,7 @@ func runEVK(c EVKCase, rec *h.Rec) error {
 			}
 			want, dec = m, skOut
 		} else {
-			if err := rlwe.NewEvaluator(params, rlwe.NewMemEvaluationKeySet(nil, gk)).Automorphism(ct, c.GalEl, out); err != nil {
+			if err := rlwe.NewEvaluator(params, rlwe.NewMemEvaluationKeySet(nil, gk)).Automorphism(ct, c.GalEl+c.GalLift*c.Params.NthRoot(), out); err != nil {
 				return h.Failf("C14:GKG:automorphism-error", "Automorphism with the collective key: %v", err)
 			}
 			want, dec = h.VecMod(ringAut(m, c.GalEl, c.Params.CI), Q), w.skIdeal
@@ -434,13 +442,16 @@ func runEVK(c EVKCase, rec *h.Rec) error {
 	rec.Class(c.Sched.descr())
 	rec.Class(keyClass(c.Params, c.Key))
 	rec.Class("functional=" + functional)
+	if c.GalLift != 0 {
+		rec.Class("galois-element-unreduced")
+	}
 	uneq := c.Key.W > 0 && unequal(digits)
 	if uneq {
 		rec.Class("unequal-digit-counts")
 	}
 	if c.Sched.nontrivial() || uneq {
 		rec.NonTrivial(fmt.Sprintf("%s|%s|%s|%s|%s|%s|uneq=%v|func=%s|ct<key=%v|shallow=%v", c.Kind, nClass(n), ringClass(c.Params), c.Sched.descr(),
-			keyClass(c.Params, c.Key), sizeClass(c.Params.Q), uneq, functional, c.CtLevel < c.Key.LevelQ, c.Shallow))
+			keyClass(c.Params, c.Key), sizeClass(c.Params.Q), uneq, functional, c.CtLevel < c.Key.LevelQ, c.Shallow) + fmt.Sprintf("|lift=%v", c.GalLift != 0))
 	}
 	return nil
 }
